@@ -17,6 +17,7 @@ package tun
 
 //@ func SendStatusProto(dest io.Writer, err error)
 //@   safety off
+//@   requires dest != nil
 //@   opt frame=off
 //@   at call Send#1: assert ok-status: err == nil ==> (status.Status == protocol.TunnelStatusCode_STATUS_OK && status.Error == "")
 //@   at call Send#1: assert no-direct-status: (err != nil && IsNoDirect(err)) ==> status.Status == protocol.TunnelStatusCode_NO_DIRECT
